@@ -63,9 +63,17 @@ pub fn gen_len(t: &mut Tape, cfg: &GenCfg) -> usize {
     }
 }
 
-const ALPHA_ANY: &[char] =
-    &['a', 'b', 'Z', '0', ' ', '/', '$', '+', '#', '\u{e9}', '\u{20ac}', '\u{1F600}', '\0', '\u{7f}', '\u{FFFD}', '\u{FFFF}'];
-const ALPHA_TOPIC: &[char] = &['a', 'b', 'Z', '0', ' ', '/', '$', '\u{e9}', '\u{20ac}', '\u{1F600}', '\u{7f}', '\u{FFFD}'];
+// ordinary characters, MQTT-significant ones, every UTF-8 width, and characters that text-handling
+// code likes to treat specially: NUL, control characters and whitespace, BOM / zero-width / line
+// separators, a combining mark, the ends of the BMP and of Unicode, the surrogate neighbours
+const ALPHA_ANY: &[char] = &[
+    'a', 'b', 'Z', '0', ' ', '/', '$', '+', '#', '\u{e9}', '\u{20ac}', '\u{1F600}', '\0', '\u{7f}', '\u{FFFD}', '\u{FFFF}', '\u{FEFF}', '\t', '\n', '\r',
+    '\u{85}', '\u{2028}', '\u{200B}', '\u{301}', '\u{10FFFF}', '\u{D7FF}', '\u{E000}', '\u{FFFE}', '\u{80}', '\u{7FF}', '\u{800}', '\u{10000}', '"', '\\',
+];
+const ALPHA_TOPIC: &[char] = &[
+    'a', 'b', 'Z', '0', ' ', '/', '$', '\u{e9}', '\u{20ac}', '\u{1F600}', '\u{7f}', '\u{FFFD}', '\u{FEFF}', '\t', '\n', '\u{85}', '\u{2028}', '\u{200B}', '\u{301}',
+    '\u{10FFFF}', '\u{D7FF}', '\u{E000}', '\u{FFFF}', '\u{80}', '\u{800}', '\u{10000}',
+];
 
 /// A string of exactly `len` bytes: up to 10 tape-chosen characters, padded with ASCII.
 fn string_of(t: &mut Tape, len: usize, alpha: &[char], prefix: &str) -> String {
@@ -127,7 +135,7 @@ pub fn gen_topic_name(t: &mut Tape, cfg: &GenCfg) -> Result<TopicName, GenError>
     TopicName::try_from(s.clone()).map_err(|e| GenError(format!("valid topic name {:?} refused by the constructor: {:?}", s, e)))
 }
 
-const LEVELS: &[&str] = &["a", "", "bc", "+", "\u{e9}\u{1F600}", "$x", "Z 0", "x"];
+const LEVELS: &[&str] = &["a", "", "bc", "+", "\u{e9}\u{1F600}", "$x", "Z 0", "x", "\u{FEFF}b", " ", "\u{301}\u{10FFFF}", "a\tb"];
 
 pub fn gen_filter_string(t: &mut Tape, cfg: &GenCfg) -> String {
     let mut s = String::new();
